@@ -472,6 +472,12 @@ def judge_xml(pid):
                         v.append(('SPECFAIL', '%s:content-differs-from-stored' % sub, d))
             if pid == 'C06' and isinstance(reopen, str) and reopen.startswith('panic:'):
                 v.append(('SPECFAIL', reopen, 'parse panics on an XML surface case'))
+        if sub == 'fuzz':
+            mp = m.get('parse')
+            if mp != reopen:
+                v.append(('DISAGREE', 'xml:parse-outcome', 'model %s, real %s (%s)' % (mp, reopen, case.get('extra', {}).get('mutation'))))
+            if pid == 'C06' and isinstance(reopen, str) and reopen.startswith('panic:'):
+                v.append(('SPECFAIL', reopen, 'parse panics on authenticated XML (%s)' % case.get('extra', {}).get('mutation')))
         # ---- specifications
         if pid == 'C03' and sub == 'lossless':
             if save != 'ok':
@@ -572,7 +578,7 @@ PROPS['C02'] = {
     'level_text': 'Kernel-checked: the hashed block reader returns the data for every partition into blocks (hashedBlocks_write); evaluation-level theorems for the KDB level-driven tree construction and entry placement, '
                   'including the witness that refutes the full statement. Faithful Lean models of decrypt_kdbx3 and parse_kdb are run against Database::get_xml/parse on every generated file.',
 }
-for _pid, _ops in (('C01', ['frame-wf', 'surface']), ('C04', ['frame-cred', 'legacy-cred']), ('C06', ['frame-fuzz', 'legacy-fuzz'])):
+for _pid, _ops in (('C01', ['frame-wf', 'surface']), ('C04', ['frame-cred', 'legacy-cred']), ('C06', ['frame-fuzz', 'legacy-fuzz', 'xml-fuzz'])):
     PROPS[_pid]['ops'] = _ops
     PROPS[_pid]['judge'] = judge_legacy(_pid)
     PROPS[_pid]['assumptions'] = LEGACY_ASSUME
